@@ -50,6 +50,8 @@ func main() {
 		cmdVerify(os.Args[2:])
 	case "funcs":
 		cmdFuncs(os.Args[2:])
+	case "structural":
+		cmdStructural(os.Args[2:])
 	case "check":
 		os.Exit(cmdCheck(os.Args[2:]))
 	case "selftest":
@@ -260,4 +262,30 @@ func flattenAnd(t string) []string {
 		out = append(out, body[start:])
 	}
 	return out
+}
+
+// cmdStructural runs one structural (SSA scan) check: govc structural -p <pkg>... '<spec>'
+func cmdStructural(args []string) {
+	fs := flag.NewFlagSet("structural", flag.ExitOnError)
+	repo := fs.String("repo", "/repo", "repository")
+	var pkgs multiFlag
+	fs.Var(&pkgs, "p", "package pattern")
+	fs.Parse(args)
+	e, err := loadEngine(*repo, pkgs, nil, stdSpecFiles())
+	if err != nil {
+		fmt.Fprintln(os.Stderr, err)
+		os.Exit(2)
+	}
+	for _, sc := range fs.Args() {
+		if strings.HasPrefix(sc, "recursion-guarded|") {
+			cycles, n, serr := e.recursionGuarded(sc)
+			fmt.Printf("%s: %d functions, %d unguarded cycles %s\n", sc, n, len(cycles), serr)
+			for _, c := range cycles {
+				fmt.Println("  cycle:", c)
+			}
+			continue
+		}
+		ok, detail := e.structural(sc)
+		fmt.Printf("%s: %v\n%s\n", sc, ok, detail)
+	}
 }
